@@ -70,7 +70,7 @@ def validate(traces, timeout=1500):
     try:
         with os.fdopen(handle, "w") as out:
             json.dump(traces, out)
-        consts = dict(Labels=set(labels) or {"x"}, InitArms=[], NRows=1000000000, Offsets=Raw("Nat"), MaxChunk=1000000000,
+        consts = dict(Labels=set(labels) or {"x"}, InitArms=[], NRows=1000000000, Offsets=Raw("Nat"), WideOffsets=set(), MaxChunk=1000000000,
                       MaxHist=1000000000, MaxDepth=1000000000, MinFit=0, MinArms=0,
                       Ops={"fit", "partial_fit", "add_arm", "remove_arm", "predict", "predict_expectations", "warm_start", "reject"},
                       RejectKinds={"any"}, QueryRows=Raw("Int"), Quantiles={"q"}, Dev=set())
